@@ -6,6 +6,7 @@ import (
 	"fmt"
 	"github.com/theparanoids/ysshra/message"
 	"github.com/theparanoids/ysshra/verifharness/lib/msgref"
+	mrand "math/rand"
 	"reflect"
 	"sort"
 	"strings"
@@ -18,6 +19,7 @@ import (
 	"github.com/theparanoids/ysshra/csr"
 	"github.com/theparanoids/ysshra/gensign"
 	"github.com/theparanoids/ysshra/keyid"
+	"github.com/theparanoids/ysshra/sshutils/version"
 	"github.com/theparanoids/ysshra/verifharness/lib/ev"
 	"github.com/theparanoids/ysshra/verifharness/lib/gen"
 	"github.com/theparanoids/ysshra/verifharness/lib/gsrig"
@@ -28,19 +30,20 @@ import (
 var defaultExts = map[string]string{"permit-pty": "", "permit-X11-forwarding": "", "permit-agent-forwarding": "", "permit-port-forwarding": "", "permit-user-rc": ""}
 
 type reqRec struct {
-	Conf        string              `json:"handler_configuration_json"`
-	LogName     string              `json:"login_name"`
-	ClientAttrs *message.Attributes `json:"other_client_attributes,omitempty"`
-	ReqUser     string              `json:"client_user"`
-	ReqHost     string              `json:"client_host"`
-	IP          string              `json:"client_ip"`
-	TransID     string              `json:"transaction_id"`
-	CAAlgo      int                 `json:"requested_ca_key_algorithm"`
-	Validity    uint64              `json:"configured_validity"`
-	IDs         map[string]string   `json:"configured_identifiers"`
-	Result      string              `json:"result"`
-	KeyID       string              `json:"key_id,omitempty"`
-	ViaWire     bool                `json:"decoded_from_the_wire_message,omitempty"`
+	Conf          string              `json:"handler_configuration_json"`
+	LogName       string              `json:"login_name"`
+	ClientAttrs   *message.Attributes `json:"other_client_attributes,omitempty"`
+	ReqUser       string              `json:"client_user"`
+	ReqHost       string              `json:"client_host"`
+	IP            string              `json:"client_ip"`
+	TransID       string              `json:"transaction_id"`
+	CAAlgo        int                 `json:"requested_ca_key_algorithm"`
+	ClientVersion string              `json:"declared_client_version,omitempty"`
+	Validity      uint64              `json:"configured_validity"`
+	IDs           map[string]string   `json:"configured_identifiers"`
+	Result        string              `json:"result"`
+	KeyID         string              `json:"key_id,omitempty"`
+	ViaWire       bool                `json:"decoded_from_the_wire_message,omitempty"`
 }
 
 // slowAgent: the requester's agent takes more than a second to accept the new key. However long the run waits for it,
@@ -428,6 +431,15 @@ func one(r *ev.Run, c *ev.Case, i int, mu *sync.Mutex, seenKeys map[string]int) 
 			rec.ViaWire = true
 			r.Count("requests decoded from the wire message by the RA's own entry point", 1)
 		}
+	}
+	// the client's declared OpenSSH version is one more claim without bearing on the signing request: old, current,
+	// absent and extreme ones (a generator of its own: the case streams above stay as they were)
+	if param != nil && param.Attrs != nil {
+		vr := mrand.New(mrand.NewSource(r.Seed*7919 + int64(c.Index)))
+		v := [][2]uint16{{8, 1}, {0, 0}, {5, 3}, {6, 4}, {6, 5}, {7, 2}, {9, 9}, {65535, 65535}, {3, 9}, {6, 0}}[vr.Intn(10)]
+		param.SSHClientVersion = version.New(v[0], v[1])
+		param.Attrs.SSHClientVersion = fmt.Sprintf("%d.%d", v[0], v[1])
+		rec.ClientVersion = param.Attrs.SSHClientVersion
 	}
 	runErr, escaped := gsrig.Run(param, []gensign.Handler{rig.Handler}, rig.Signer)
 	rec.Result = gsrig.Kind(runErr)
